@@ -436,6 +436,34 @@ func (p *parser) primary() *Expr {
 			p.expectOp(")")
 			return e
 		}
+		if t.text == "[" && p.isOp("]") {
+			// a slice TYPE used as an argument of typetag(...) / unbox(x, ...): []byte, []interface{}, []pkg.T
+			p.next()
+			ty := "[]"
+			for p.isOp("[") || p.isOp("*") {
+				o := p.next()
+				ty += o.text
+				if o.text == "[" {
+					p.expectOp("]")
+					ty += "]"
+				}
+			}
+			id := p.next()
+			if id.kind != "id" {
+				panic(fmt.Sprintf("type name expected after [] at %d in %q", id.pos, p.src))
+			}
+			ty += id.text
+			for p.isOp(".") {
+				p.next()
+				ty += "." + p.next().text
+			}
+			if id.text == "interface" && p.isOp("{") {
+				p.next()
+				p.expectOp("}")
+				ty += "{}"
+			}
+			return &Expr{Op: "id", Val: ty}
+		}
 	}
 	panic(fmt.Sprintf("unexpected %q at %d in %q", t.text, t.pos, p.src))
 }
